@@ -83,6 +83,18 @@ class LazySource:
         return sum(1 for r in self.refs if r() is not None)
 
 
+class DualSource(LazySource):
+    """also offers the synchronous protocol (like an object that can be read blocking or non-blocking)"""
+
+    def __iter__(self):
+        while not self.closed and self.idx < self.n:
+            item = Item(self.idx)
+            self.refs.append(weakref.ref(item))
+            self.idx += 1
+            yield item
+        self.exhausted = True
+
+
 @st.composite
 def configs(draw, tier):
     n = draw(st.integers(2, 4))
@@ -96,6 +108,7 @@ def configs(draw, tier):
             "lock_falsy": draw(st.booleans()) if lock else False, "susp": susp,
             "length": length, "closes": closes, "cancel": list(cancel) if cancel else None,
             "between": draw(st.booleans()), "close_after_cancel": draw(st.booleans()),
+            "dual": draw(st.sampled_from([False, False, True])),
             # nested: child 0 is not consumed directly but handed, un-advanced, to a second tee with a lock of its own
             "nested": draw(st.sampled_from([0, 0, 0, 2, 3])) if n <= 3 else 0,
             "choices": draw(st.lists(st.integers(0, 3), max_size=60))}
@@ -104,7 +117,7 @@ def configs(draw, tier):
 def run_config(case, choices=None, default="rr"):
     ctx = Ctx("a")
     n = case["n"]
-    src = LazySource(ctx, case["length"], case["susp"])
+    src = (DualSource if case.get("dual") else LazySource)(ctx, case["length"], case["susp"])
     lock = Lock(ctx, "lock", suspend_uncontended=case["lock_susp"],
                 release_susp=case.get("lock_release_susp", False)) if case["lock"] else None
     if lock is not None and case.get("lock_falsy"):
